@@ -488,54 +488,111 @@ def check_handwritten(prog, res, prop="C08"):
         res.fn(fd)
         ea = FA(fe, prog)
         da = FA(fd, prog)
-        # encode: put::<I16>((y +- 0.5) as i16, W) with y = x / c
+        # encode: put::<I16>(z as i16, W) where the put receives the cast directly (no post-processing of the integer) and
+        #   template A: z = y +- 1/2 selected by the sign of y, y = x / c
+        #   template B: z = (x +- h) / c selected by the sign of x, with 2h == c exactly
+        # and x is a plain read of the element's field (no clamping / remapping before quantisation)
         found = None
+        why = "no put::<I16>(_, %d) of a float-to-int cast found (is the integer post-processed after the cast?)" % W
         for b, t in fe.calls():
             if callee_of(t) == PUT:
                 a = ea.call_args(b)
                 g = libmodel.carrier_of(t.get("rargs") or t.get("cargs"))
                 X = a[1]
-                if X.op == "cast" and X.args[0] == "FloatToInt" and g and g[0] == "I16" and is_const(a[2]) and const_val(a[2]) == W:
-                    found = (b, X.args[1])
+                if g and g[0] == "I16" and is_const(a[2]) and const_val(a[2]) == W:
+                    if X.op == "cast" and X.args[0] == "FloatToInt":
+                        found = (b, X.args[1])
+                    else:
+                        why = "the value written is not the float-to-int cast itself: %s" % show(X, ea.names)
         ok = False
-        d = ""
+        d = why
         c_e = None
+
+        def plain_read(x):
+            for y in subterms(x):
+                if y.op == "call" and not y.args[0].endswith("::next"):
+                    return False
+                if y.op in ("bin", "un", "cast", "phi"):
+                    return False
+            return x.op in ("memval", "field")
+
+        def sign_select(ph, on):
+            """phi of (on +- k): returns {cmp: signed offset} or None"""
+            sel = {}
+            for pb, v in ea.phi_operands(ph):
+                if v.op == "bin" and v.args[0] in ("Add", "Sub") and is_lit(v.args[2]) and v.args[1] is on:
+                    off = fconst(v.args[2]) * (1 if v.args[0] == "Add" else -1)
+                    facts = [fact_of_guard(gd) for gd in ea.guards(pb) if gd[4] == "switch"]
+                    cmpf = [fc for fc in facts if fc[0] in ("Ge", "Gt", "Lt", "Le") and fc[1] is on and is_const(fc[2]) and fconst(fc[2]) == 0]
+                    if len(cmpf) != 1:
+                        return None
+                    sel[cmpf[0][0]] = off
+                else:
+                    return None
+            return sel
         if found:
             b, z = found
             if z.op == "phi":
-                ops = ea.phi_operands(z)
-                sel = {}
-                ys = set()
-                for pb, v in ops:
-                    if v.op == "bin" and v.args[0] in ("Add", "Sub") and is_const(v.args[2]):
-                        off = fconst(v.args[2]) * (1 if v.args[0] == "Add" else -1)
-                        y = v.args[1]
-                        ys.add(y)
-                        facts = [fact_of_guard(gd) for gd in ea.guards(pb) if gd[4] == "switch"]
-                        cmpf = [fc for fc in facts if fc[0] in ("Ge", "Gt", "Lt", "Le") and fc[1] is y and is_const(fc[2]) and fconst(fc[2]) == 0]
-                        if len(cmpf) == 1:
-                            sel[cmpf[0][0]] = off
-                if len(ys) == 1:
-                    y = next(iter(ys))
-                    if y.op == "bin" and y.args[0] == "Div" and is_const(y.args[2]):
+                # template A
+                ons = {v.args[1] for pb, v in ea.phi_operands(z) if v.op == "bin"}
+                if len(ons) == 1:
+                    y = next(iter(ons))
+                    sel = sign_select(z, y)
+                    if sel is not None and y.op == "bin" and y.args[0] == "Div" and is_lit(y.args[2]):
                         c_e = fconst(y.args[2])
                         pos = [v for k, v in sel.items() if k in ("Ge", "Gt")]
                         neg = [v for k, v in sel.items() if k in ("Lt", "Le")]
-                        ok = pos == [Fraction(1, 2)] and neg == [Fraction(-1, 2)]
-                        d = "template %s on x / %s" % ({k: str(v) for k, v in sel.items()}, float(c_e))
-        res.ob("Q-quant", "%s | encode rounds half away from zero on the quotient, 16-bit signed carrier, %d bits" % (mod, W), ok, d, fe.loc, sample=d)
-        # decode: (parse::<I16>(W) as f32) * c
+                        okx = plain_read(y.args[1])
+                        ok = pos == [Fraction(1, 2)] and neg == [Fraction(-1, 2)] and okx
+                        d = "template A %s on x / %s; x is a plain field read: %s (%s)" % ({k: str(v) for k, v in sel.items()}, float(c_e), okx, show(y.args[1], ea.names))
+            elif z.op == "bin" and z.args[0] == "Div" and is_lit(z.args[2]) and z.args[1].op == "phi":
+                # template B
+                c_e = fconst(z.args[2])
+                w = z.args[1]
+                ons = {v.args[1] for pb, v in ea.phi_operands(w) if v.op == "bin"}
+                if len(ons) == 1:
+                    x = next(iter(ons))
+                    sel = sign_select(w, x)
+                    if sel is not None:
+                        pos = [v for k, v in sel.items() if k in ("Ge", "Gt")]
+                        neg = [v for k, v in sel.items() if k in ("Lt", "Le")]
+                        okx = plain_read(x)
+                        ok = len(pos) == 1 and len(neg) == 1 and pos[0] == -neg[0] and 2 * pos[0] == c_e and okx
+                        d = "template B: (x +- %s) / %s, half step exact: %s; x is a plain field read: %s" % (
+                            float(pos[0]) if pos else None, float(c_e), bool(pos) and 2 * pos[0] == c_e, okx)
+            else:
+                d = "quantiser shape not recognised: %s" % show(z, ea.names)[:160]
+        res.ob("Q-quant", "%s | encode rounds half away from zero on the quotient of the raw field, 16-bit signed carrier, %d bits" % (mod, W), ok, d, fe.loc, sample=d)
+        # decode: every pushed entry carries exactly (parse::<I16>(W) as f32) * c in its float field (no post-processing)
         c_d = None
         okd = False
-        for b in sorted(fd.reachable()):
-            for i, s in enumerate(fd.blocks[b]["stmts"]):
-                if s["k"] == "assign" and s["rv"]["k"] == "binop" and s["rv"]["op"] == "Mul":
-                    v = da.rv_term(s["rv"], (b, i))
-                    if is_const(v.args[2]) and v.args[1].op == "cast" and v.args[1].args[0] == "IntToFloat":
-                        src = v.args[1].args[1]
-                        if any(x.op == "call" and x.args[0] == PARSE and is_const(x.args[1][1]) and const_val(x.args[1][1]) == W for x in subterms(src)):
-                            c_d = fconst(v.args[2])
-                            okd = True
+        npush = 0
+        for b, t in fd.calls():
+            if (callee_of(t) or "").endswith("DataVec::<T, N>::push"):
+                a = da.call_args(b)
+                v = a[1]
+                if v.op != "agg":
+                    continue
+                fl = [x for x in v.args[3] if ty_of(x) is not None and ty_of(x).get("k") == "float"]
+                if len(fl) != 1:
+                    continue
+                npush += 1
+                x = fl[0]
+                good = x.op == "bin" and x.args[0] == "Mul" and is_lit(x.args[2]) and x.args[1].op == "cast" and x.args[1].args[0] == "IntToFloat" \
+                    and any(y.op == "call" and y.args[0] == PARSE and is_const(y.args[1][1]) and const_val(y.args[1][1]) == W for y in subterms(x.args[1].args[1])) \
+                    and not any(y.op == "call" and y.args[0] not in (PARSE, BRANCH) for y in subterms(x.args[1].args[1]))
+                if good:
+                    cd = fconst(x.args[2])
+                    if c_d is None or c_d == cd:
+                        c_d = cd
+                        okd = True
+                    else:
+                        okd = False
+                else:
+                    okd = False
+                    c_d = None
+                    break
+        okd = okd and npush >= 1
         res.ob("Q-quant", "%s | decode = parsed %d-bit integer * the same resolution" % (mod, W), okd and c_d == c_e and c_d is not None,
                "decode res %s, encode res %s" % (c_d, c_e), fd.loc)
         if c_d is not None and c_e == c_d:
